@@ -4,7 +4,7 @@
    value is indistinguishable (root, encoding, returned count) from a freshly constructed one. *)
 Require Import RM.Base RM.Gindex RM.Tree RM.TreeProofs RM.Types RM.Spec RM.ModelViews RM.ModelCodec RM.ModelMut
                RM.SerLen RM.FactsProofs RM.MerkleProofs RM.PackProofs RM.CtorProofs RM.PathProofs RM.CRepProofs
-               RM.ListProofs RM.SerProofs RM.CodecBasicProofs RM.SerProofs2 RM.BitProofs RM.ChunkProofs RM.SerAll RM.ReprProofs.
+               RM.ListProofs RM.SerProofs RM.CodecBasicProofs RM.SerProofs2 RM.BitProofs RM.ChunkProofs RM.SerAll RM.ReprProofs RM.IterProofs.
 From Coq Require Import ZifyBool ZifyNat ZifyN.
 Local Open Scope N_scope.
 Section WithHash.
@@ -94,6 +94,225 @@ Proof.
   exists n'. split; [reflexivity|]. cbn [ReprProofs.Repr]. rewrite Eb. exists (upd (N.to_nat (Z.to_N i)) m ns). split; [exact Hc'|].
   replace (N.to_nat (Z.to_N i)) with (Z.to_nat i) by lia. now apply Forall2_upd.
 Qed.
+(* ---- union change ---- *)
+Lemma pick_repr_nth os i x c :
+  (fix pick (os : list ty) (i : nat) : Prop :=
+     match os, i with o :: _, O => Repr o x c | _ :: os', S i' => pick os' i' | [], _ => False end) os i
+  <-> exists o, nth_error os i = Some o /\ Repr o x c.
+Proof.
+  revert i. induction os as [|o os IH]; intros i.
+  - split; [intros []|intros (o' & Hn & Hr); destruct i; discriminate].
+  - destruct i as [|i].
+    + split; [intros Hr; exists o; split; [reflexivity|exact Hr]|intros (o' & Hn & Hr); cbn in Hn; inversion Hn; subst; exact Hr].
+    + cbn [nth_error]. apply IH.
+Qed.
+
+Theorem union_change_some (b : bool) os sel o x m : (0 <= sel)%Z -> (sel < Z.of_N (lenN os + (if b then 1 else 0))%N)%Z ->
+  union_opt b os (Z.to_nat sel) = Some o -> Repr o x m ->
+  exists n', union_change H (TUnion b os) sel (Some m) = Ok n' /\ Repr (TUnion b os) (VUnion (Z.to_nat sel) (Some x)) n'.
+Proof.
+  intros H0 Hlt Hopt Hx. unfold union_change.
+  assert ((sel <? 0)%Z = false) as -> by lia.
+  assert ((Z.of_N (lenN os + (if b then 1 else 0)) <=? sel)%Z = false) as -> by lia.
+  rewrite Hopt. eexists; split; [reflexivity|]. cbn [ReprProofs.Repr]. exists m. split; [f_equal; f_equal; lia|].
+  apply pick_repr_nth. exists o. split; [|exact Hx].
+  unfold union_opt in Hopt. destruct b; [destruct (Z.to_nat sel); [discriminate|exact Hopt]|exact Hopt].
+Qed.
+
+Theorem union_change_none os : 
+  exists n', union_change H (TUnion true os) 0 None = Ok n' /\ Repr (TUnion true os) (VUnion 0 None) n'.
+Proof.
+  unfold union_change. cbn [Z.ltb Z.compare].
+  assert ((Z.of_N (lenN os + 1) <=? 0)%Z = false) as -> by lia. cbn [union_opt Z.to_nat].
+  eexists; split; [reflexivity|]. cbn [ReprProofs.Repr]. exists (zero_node H 0). split; reflexivity.
+Qed.
+
+(* ---- pop: clearing the last position and summarising the emptied subtree ---- *)
+Lemma CRep_nil_root d n : CRep d n [] -> root n = zero_hash H d.
+Proof. intros Hc. rewrite (CRep_merkleize H _ _ _ Hc). cbn [map]. apply merkleize_nil. Qed.
+
+Lemma nil_or_last {A} (l : list A) : l = [] \/ exists l' a, l = l' ++ [a].
+Proof. induction l using rev_ind; [now left|right; eauto]. Qed.
+
+(* a trailing zero leaf can be dropped from the represented list (same tree) *)
+Lemma CRep_drop_zero : forall d n ns, CRep d n ns -> forall ms, ns = ms ++ [zero_node H 0] -> CRep d n ms.
+Proof.
+  induction 1 as [d|x|d l r ls rs Hl IHl Hr IHr Hor]; intros ms E.
+  - destruct ms; discriminate.
+  - destruct ms as [|m ms]; [|destruct ms; discriminate]. inversion E; subst. apply (CRep_zero H 0).
+  - destruct (nil_or_last rs) as [Ers|(rs' & z & Ers)].
+    + subst rs. rewrite app_nil_r in E. subst ls.
+      rewrite <- (app_nil_r ms). apply CRep_pair; [now apply IHl|exact Hr|now left].
+    + subst rs. rewrite app_assoc in E. apply app_inj_tail in E as [E1 E2]. subst z ms.
+      apply CRep_pair; [exact Hl|now apply IHr|]. destruct Hor as [Hor|Hor]; [destruct rs'; discriminate|now right].
+Qed.
+(* position (big-endian value) of a path *)
+Fixpoint pidx (p : list bool) : N :=
+  match p with [] => 0 | b :: p' => (if b then 2 ^ N.of_nat (length p') else 0) + pidx p' end.
+Lemma pidx_lt p : pidx p < 2 ^ N.of_nat (length p).
+Proof.
+  induction p as [|b p IH]; [cbn; lia|]. cbn [pidx length]. rewrite Nat2N.inj_succ, N.pow_succ_r'. destruct b; lia.
+Qed.
+
+(* summarising a subtree that lies entirely beyond the represented list keeps the representation *)
+Lemma CRep_summarize : forall d n ms, CRep d n ms -> forall p sub, (length p <= d)%nat ->
+  getter src n p = Ok sub -> lenN ms <= pidx p * 2 ^ N.of_nat (d - length p) ->
+  exists n', setter_below H src false n p (RootN (root sub)) = Ok n' /\ CRep d n' ms.
+Proof.
+  induction 1 as [d|x|d l r ls rs Hl IHl Hr IHr Hor]; intros p sub Hlen Hg Hcond.
+  - destruct p as [|b p]; [|cbn in Hg; discriminate]. cbn in Hg. inversion Hg; subst sub.
+    exists (zero_node H d). split; [reflexivity|constructor].
+  - destruct p; [|cbn in Hlen; lia]. cbn in Hcond. unfold lenN in Hcond. cbn in Hcond. lia.
+  - pose proof (CRep_len H _ _ _ Hl) as Hll. pose proof (CRep_len H _ _ _ Hr) as Hlr. pose proof (pow_nat_N d) as Hp.
+    destruct p as [|b p].
+    + cbn in Hg. inversion Hg; subst sub. cbn [pidx] in Hcond. rewrite N.mul_0_l in Hcond.
+      assert (ls = [] /\ rs = []) as [-> ->] by (unfold lenN in Hcond; rewrite app_length in Hcond; destruct ls, rs; cbn in *; try lia; auto).
+      exists (RootN (root (PairN l r))). split; [reflexivity|].
+      cbn [Tree.root]. rewrite (CRep_nil_root _ _ Hl), (CRep_nil_root _ _ Hr).
+      change (RootN (H (zero_hash H d) (zero_hash H d))) with (zero_node H (S d)). constructor.
+    + cbn [length] in Hlen. cbn [Tree.getter children] in Hg. cbn [pidx length] in Hcond.
+      replace (S d - S (length p))%nat with (d - length p)%nat in Hcond by lia.
+      pose proof (pidx_lt p) as Hpl.
+      assert (2 ^ N.of_nat (length p) * 2 ^ N.of_nat (d - length p) = 2 ^ N.of_nat d) as Hpow
+        by (rewrite <- N.pow_add_r; f_equal; lia).
+      cbn [Tree.setter_below children]. destruct b.
+      * (* right child *)
+        destruct (IHr p sub ltac:(lia) Hg) as (r' & Hs & Hc').
+        { unfold lenN in *. rewrite app_length in Hcond. destruct Hor as [->|E]; [cbn; lia|]. nia. }
+        rewrite Hs. cbn [rebuild]. eexists; split; [reflexivity|]. now apply CRep_pair.
+      * (* left child: nothing can be on the right *)
+        rewrite N.add_0_l in Hcond.
+        assert (rs = []) as ->.
+        { destruct Hor as [->|E]; [reflexivity|]. exfalso. unfold lenN in *. rewrite app_length in Hcond. nia. }
+        rewrite app_nil_r in *.
+        destruct (IHl p sub ltac:(lia) Hg Hcond) as (l' & Hs & Hc').
+        rewrite Hs. cbn [rebuild]. eexists; split; [reflexivity|]. rewrite <- (app_nil_r ls). apply CRep_pair; auto.
+Qed.
+Lemma be_bits_split a : forall k i, be_bits (a + k) i = be_bits a (i / 2 ^ N.of_nat k) ++ be_bits k i.
+Proof.
+  induction k as [|k IH]; intros i.
+  - rewrite Nat.add_0_r. cbn [be_bits N.of_nat]. rewrite N.pow_0_r, N.div_1_r, app_nil_r. reflexivity.
+  - replace (a + S k)%nat with (S (a + k)) by lia. rewrite !be_bits_snoc, IH, <- app_assoc. f_equal.
+    rewrite Nat2N.inj_succ, N.pow_succ_r', N.div_div by (try apply N.pow_nonzero; lia). reflexivity.
+Qed.
+
+Lemma pidx_be_bits : forall m x, pidx (be_bits m x) = x mod 2 ^ N.of_nat m.
+Proof.
+  induction m as [|m IH]; intros x; [cbn; now rewrite N.mod_1_r|].
+  cbn [be_bits pidx]. rewrite be_bits_length, IH.
+  rewrite Nat2N.inj_succ, N.pow_succ_r' by lia.
+  pose proof (N.testbit_spec' x (N.of_nat m)) as Hb.
+  assert (2 ^ N.of_nat m <> 0) as Hnz by (apply N.pow_nonzero; lia).
+  pose proof (N.div_mod x (2 ^ N.of_nat m) Hnz) as Hdm.
+  pose proof (N.mod_lt x (2 ^ N.of_nat m) Hnz) as Hlt.
+  pose proof (N.div_mod (x / 2 ^ N.of_nat m) 2 ltac:(lia)) as Hdm2.
+  pose proof (N.mod_lt (x / 2 ^ N.of_nat m) 2 ltac:(lia)) as Hlt2.
+  apply (N.mod_unique x (2 * 2 ^ N.of_nat m) (x / 2 ^ N.of_nat m / 2)).
+  - destruct (N.testbit x (N.of_nat m)); cbn [N.b2n] in Hb; lia.
+  - destruct (N.testbit x (N.of_nat m)); cbn [N.b2n] in Hb; nia.
+Qed.
+
+(* the climb of List.pop / Bitlist.pop: some k trailing zero bits of the index are stripped *)
+Lemma climb_exists : forall fuel D j, j < 2 ^ N.of_nat D ->
+  exists k, (k <= D)%nat /\ j mod 2 ^ N.of_nat k = 0 /\
+            climb fuel (2 ^ N.of_nat (S D) + j) = 2 ^ N.of_nat (S (D - k)) + j / 2 ^ N.of_nat k.
+Proof.
+  induction fuel as [|fuel IH]; intros D j Hj.
+  - exists 0%nat. rewrite Nat.sub_0_r. cbn [climb N.of_nat]. rewrite N.pow_0_r, N.mod_1_r, N.div_1_r. split; [lia|split; reflexivity].
+  - cbn [climb]. set (g := 2 ^ N.of_nat (S D) + j).
+    destruct (N.even g && negb (g =? 2)) eqn:Ec.
+    + apply andb_true_iff in Ec as [Hev Hne]. apply negb_true_iff, N.eqb_neq in Hne.
+      destruct D as [|D'].
+      { cbn in Hj. assert (j = 0) as -> by lia. unfold g in Hne. cbn in Hne. lia. }
+      assert (N.even j = true) as Hej.
+      { unfold g in Hev. rewrite Nat2N.inj_succ, N.pow_succ_r' in Hev by lia. rewrite N.add_comm, N.even_add_mul_2 in Hev. exact Hev. }
+      apply N.even_spec in Hej as (h & Eh).
+      assert (g / 2 = 2 ^ N.of_nat (S D') + h) as Eg.
+      { unfold g. rewrite (Nat2N.inj_succ (S D')), N.pow_succ_r' by lia. subst j. rewrite <- N.mul_add_distr_l, N.mul_comm, N.div_mul by lia. reflexivity. }
+      rewrite Eg. destruct (IH D' h) as (k & Hk & Hmod & Hcl).
+      { rewrite Nat2N.inj_succ, N.pow_succ_r' in Hj by lia. lia. }
+      exists (S k). split; [lia|]. rewrite Hcl. replace (S D' - S k)%nat with (D' - k)%nat by lia.
+      rewrite Nat2N.inj_succ, N.pow_succ_r' by lia. subst j.
+      assert (2 ^ N.of_nat k <> 0) as Hnz by (apply N.pow_nonzero; lia).
+      split.
+      * rewrite N.mul_mod_distr_l by lia. rewrite Hmod. lia.
+      * f_equal. rewrite N.div_mul_cancel_l by lia. reflexivity.
+    + exists 0%nat. rewrite Nat.sub_0_r. cbn [N.of_nat]. rewrite N.pow_0_r, N.mod_1_r, N.div_1_r. split; [lia|split; reflexivity].
+Qed.
+(* the summarisation step on a list backing whose contents tree already represents ms, at an
+   ancestor of position j = |ms| reached by stripping k trailing zero bits *)
+Lemma summarize_list_backing d c lenn ms k (j : N) : CRep d c ms -> lenN ms = j -> j < 2 ^ N.of_nat d ->
+  (k <= d)%nat -> j mod 2 ^ N.of_nat k = 0 ->
+  (exists leaf, getter src c (be_bits d j) = Ok leaf) ->
+  exists c', summarize_into_g H src (PairN c lenn) (2 ^ N.of_nat (S (d - k)) + j / 2 ^ N.of_nat k) = Ok (PairN c' lenn) /\ CRep d c' ms.
+Proof.
+  intros Hc Hlen Hj Hk Hmod (leaf & Hleaf).
+  assert (2 ^ N.of_nat k <> 0) as Hnz by (apply N.pow_nonzero; lia).
+  assert (j / 2 ^ N.of_nat k < 2 ^ N.of_nat (d - k)) as Hq.
+  { apply N.div_lt_upper_bound; [exact Hnz|]. rewrite <- N.pow_add_r. replace (N.of_nat k + N.of_nat (d - k)) with (N.of_nat d) by lia. exact Hj. }
+  assert (j / 2 ^ N.of_nat k < 2 ^ N.of_nat (S (d - k))) as Hq2 by (rewrite Nat2N.inj_succ, N.pow_succ_r'; lia).
+  unfold summarize_into_g. rewrite (path_of_to_gindex (S (d - k)) _ Hq2). cbn [be_bits].
+  rewrite (testbit_top _ (d - k) Hq2). assert ((2 ^ N.of_nat (d - k) <=? j / 2 ^ N.of_nat k) = false) as -> by (apply N.leb_gt; exact Hq).
+  set (p := be_bits (d - k) (j / 2 ^ N.of_nat k)).
+  (* the prefix is navigable *)
+  assert (be_bits d j = p ++ be_bits k j) as Esplit.
+  { unfold p. replace d with ((d - k) + k)%nat at 1 by lia. apply be_bits_split. }
+  rewrite Esplit in Hleaf. apply IterProofs.getter_app in Hleaf as (sub & Hsub & _).
+  unfold summarize_into. cbn [Tree.getter children]. rewrite Hsub. cbn [bind].
+  rewrite setter_unfold. cbn [Tree.setter_below children].
+  destruct (CRep_summarize d c ms Hc p sub) as (c' & Hs & Hc').
+  - unfold p. rewrite be_bits_length. lia.
+  - exact Hsub.
+  - unfold p. rewrite pidx_be_bits, be_bits_length. rewrite N.mod_small by exact Hq.
+    replace (d - (d - k))%nat with k by lia. pose proof (N.div_mod j (2 ^ N.of_nat k) Hnz). rewrite Hmod in *. lia.
+  - rewrite Hs. cbn [rebuild]. exists c'. auto.
+Qed.
+
+Section PopComposite.
+Variable e : ty.
+Variable limit : N.
+Hypothesis He : basic_size e = None.
+Hypothesis Hlim : limit < 2 ^ 64.
+Notation t := (TList e limit).
+Notation cd := (contents_depth (TList e limit)).
+
+Theorem list_pop_rep n ns : Rep_list H e limit n ns -> ns <> [] ->
+  exists n', list_pop H src t n = Ok n' /\ Rep_list H e limit n' (removelast ns).
+Proof.
+  intros Hr Hne. pose proof Hr as (c & -> & Hc & Hl). unfold list_pop.
+  rewrite (mixin_len_node H src c (lenN ns)) by lia. cbn [bind].
+  assert (1 <= lenN ns) as H1 by (destruct ns; [congruence|rewrite lenN_cons; lia]).
+  assert ((lenN ns =? 0) = false) as -> by (apply N.eqb_neq; lia). rewrite He.
+  pose proof (depth_fits e limit He) as Hd.
+  set (i := lenN ns - 1).
+  assert (i < 2 ^ N.of_nat cd) as Hi by (unfold i; lia).
+  assert (tree_depth t = S cd) as -> by reflexivity.
+  assert (i < 2 ^ N.of_nat (S cd)) as Hi2 by (rewrite Nat2N.inj_succ, N.pow_succ_r'; lia).
+  rewrite (to_gindex_ok i (S cd) Hi2). cbn [bind].
+  (* clearing position i *)
+  unfold setter_g. rewrite (path_of_to_gindex (S cd) i Hi2). cbn [be_bits]. rewrite (testbit_top i cd Hi2).
+  assert ((2 ^ N.of_nat cd <=? i) = false) as -> by (apply N.leb_gt; exact Hi).
+  rewrite setter_unfold. cbn [Tree.setter_below children].
+  destruct (CRep_set H src false _ _ _ Hc i (zero_node H 0) ltac:(unfold i; lia)) as (c1 & Hs1 & Hc1). rewrite Hs1. cbn [rebuild bind].
+  assert (upd (N.to_nat i) (zero_node H 0) ns = removelast ns ++ [zero_node H 0]) as Eupd.
+  { destruct (nil_or_last ns) as [->|(ns' & z & ->)]; [congruence|]. rewrite removelast_last.
+    assert (N.to_nat i = length ns') as -> by (unfold i, lenN; rewrite app_length; cbn [length]; lia).
+    rewrite upd_app2 by lia. rewrite Nat.sub_diag. reflexivity. }
+  pose proof (CRep_get H src _ _ _ Hc1 i (RootN zero32) ltac:(unfold lenN; rewrite upd_len; unfold i, lenN in *; lia)) as Hleaf.
+  rewrite Eupd in Hc1. pose proof (CRep_drop_zero _ _ _ Hc1 _ eq_refl) as Hc1'.
+  assert (lenN (removelast ns) = i) as Hlen'.
+  { destruct (nil_or_last ns) as [->|(ns' & z & ->)]; [congruence|]. rewrite removelast_last. unfold i, lenN. rewrite app_length. cbn [length]. lia. }
+  (* summarising *)
+  assert (exists c2, (if N.even (2 ^ N.of_nat (S cd) + i) then summarize_up H src (PairN c1 (len_node (lenN ns))) (2 ^ N.of_nat (S cd) + i)
+                      else Ok (PairN c1 (len_node (lenN ns)))) = Ok (PairN c2 (len_node (lenN ns))) /\ CRep cd c2 (removelast ns)) as (c2 & Hsum & Hc2).
+  { destruct (N.even (2 ^ N.of_nat (S cd) + i)); [|eauto].
+    unfold summarize_up. destruct (climb_exists (N.size_nat (2 ^ N.of_nat (S cd) + i)) cd i Hi) as (k & Hk & Hmod & Hcl). rewrite Hcl.
+    apply (summarize_list_backing cd c1 _ (removelast ns) k i Hc1' Hlen' Hi Hk Hmod). eauto. }
+  rewrite Hsum. cbn [bind]. unfold rebind_right. cbn [children]. eexists; split; [reflexivity|].
+  exists c2. fold i. rewrite Hlen'. split; [reflexivity|]. split; [exact Hc2|]. unfold i. lia.
+Qed.
+End PopComposite.
+
 (* ---- lists of composite elements: the node-list theorems of ListProofs lifted to values ---- *)
 Section OneList.
 Variable e : ty.
@@ -127,6 +346,21 @@ Qed.
 Lemma Forall2_snoc {A B} (P : A -> B -> Prop) l r x y : Forall2 P l r -> P x y -> Forall2 P (l ++ [x]) (r ++ [y]).
 Proof. induction 1; cbn; intros; constructor; auto. Qed.
 
+Lemma Forall2_removelast {A B} (P : A -> B -> Prop) l r : Forall2 P l r -> Forall2 P (removelast l) (removelast r).
+Proof.
+  induction 1 as [|x y l r Hxy HF IH]; [constructor|]. destruct HF as [|x' y' l r Hx' HF']; cbn; [constructor|].
+  constructor; [exact Hxy|exact IH].
+Qed.
+
+Theorem list_pop_v vs n : Repr t (VSeq vs) n -> lenN vs <= limit -> vs <> [] ->
+  exists n', list_pop H src t n = Ok n' /\ Repr t (VSeq (removelast vs)) n'.
+Proof.
+  intros Hr Hl Hne. destruct (repr_list_split vs n Hr Hl) as (ns & Hrl & HF).
+  assert (ns <> []) as Hne' by (intros ->; inversion HF; congruence).
+  destruct (list_pop_rep e limit He Hlim n ns Hrl Hne') as (n' & Hs & Hr').
+  exists n'. split; [exact Hs|]. apply (repr_list_join _ _ _ Hr'). now apply Forall2_removelast.
+Qed.
+
 Theorem list_append_v vs n x m : Repr t (VSeq vs) n -> lenN vs < limit -> Repr e x m ->
   exists n', list_append H src t n m = Ok n' /\ Repr t (VSeq (vs ++ [x])) n'.
 Proof.
@@ -137,18 +371,24 @@ Proof.
 Qed.
 
 (* histories over values *)
-Inductive vop := VSet (i : Z) (x : val) (m : node) | VAppend (x : val) (m : node).
+Inductive vop := VSet (i : Z) (x : val) (m : node) | VAppend (x : val) (m : node) | VPop.
 Definition vapply_impl (n : node) (o : vop) : result node :=
-  match o with VSet i _ m => view_set H src t n i m | VAppend _ m => list_append H src t n m end.
+  match o with VSet i _ m => view_set H src t n i m | VAppend _ m => list_append H src t n m | VPop => list_pop H src t n end.
 Definition vapply_spec (vs : list val) (o : vop) : list val :=
-  match o with VSet i x _ => upd (Z.to_nat i) x vs | VAppend x _ => vs ++ [x] end.
+  match o with VSet i x _ => upd (Z.to_nat i) x vs | VAppend x _ => vs ++ [x] | VPop => removelast vs end.
 Definition vvalid_op (vs : list val) (o : vop) : Prop :=
   match o with
   | VSet i x m => (0 <= i < Z.of_N (lenN vs))%Z /\ Repr e x m /\ wf e x = true
   | VAppend x m => lenN vs < limit /\ Repr e x m /\ wf e x = true
+  | VPop => vs <> []
   end.
 Fixpoint vvalid_ops (vs : list val) (os : list vop) : Prop :=
   match os with [] => True | o :: r => vvalid_op vs o /\ vvalid_ops (vapply_spec vs o) r end.
+
+Lemma removelast_length_le {A} (l : list A) : (length (removelast l) <= length l)%nat.
+Proof. induction l as [|a l IH]; [cbn; lia|]. destruct l; cbn in *; lia. Qed.
+Lemma In_removelast {A} (x : A) l : In x (removelast l) -> In x l.
+Proof. induction l as [|a l IH]; [tauto|]. destruct l as [|b l]; [cbn; tauto|]. intros [->|Hin]; [now left|right; now apply IH]. Qed.
 
 Lemma forallb_upd {A} (p : A -> bool) l i x : forallb p l = true -> p x = true -> forallb p (upd i x l) = true.
 Proof.
@@ -164,12 +404,16 @@ Theorem list_value_history : forall os vs n, Repr t (VSeq vs) n -> wf t (VSeq vs
 Proof.
   induction os as [|o os IH]; intros vs n Hr Hwf Hv; cbn [fold_left]; [eauto|].
   destruct Hv as [Hv1 Hv2]. cbn [wf] in Hwf. apply andb_true_iff in Hwf as [Hl Hall]. apply N.leb_le in Hl.
-  destruct o as [i x m|x m]; cbn [vvalid_op vapply_impl vapply_spec bind] in *.
+  destruct o as [i x m|x m|]; cbn [vvalid_op vapply_impl vapply_spec bind] in *.
   - destruct Hv1 as (Hi & Hx & Hwx). destruct (list_set_v vs n i x m Hr Hl Hi Hx) as (n1 & Hs & Hr1). rewrite Hs.
     apply IH; [exact Hr1| |exact Hv2]. cbn [wf]. unfold lenN. rewrite upd_len. apply andb_true_iff. split; [apply N.leb_le; exact Hl|now apply forallb_upd].
   - destruct Hv1 as (Hlt & Hx & Hwx). destruct (list_append_v vs n x m Hr Hlt Hx) as (n1 & Hs & Hr1). rewrite Hs.
     apply IH; [exact Hr1| |exact Hv2]. cbn [wf]. rewrite forallb_app. cbn [forallb]. rewrite Hall, Hwx. cbn [andb].
     rewrite andb_true_r. apply N.leb_le. rewrite lenN_app. unfold lenN at 2. cbn [length]. lia.
+  - destruct (list_pop_v vs n Hr Hl Hv1) as (n1 & Hs & Hr1). rewrite Hs.
+    apply IH; [exact Hr1| |exact Hv2]. cbn [wf]. apply andb_true_iff. split.
+    + apply N.leb_le. unfold lenN in *. pose proof (removelast_length_le vs). lia.
+    + apply forallb_forall. intros x Hx. rewrite forallb_forall in Hall. apply Hall. now apply In_removelast in Hx.
 Qed.
 End OneList.
 
